@@ -250,6 +250,39 @@ def check(chk):
            g.where(), detail=str(got), construct=g.ident, text="pf missing balls")
     chk.floor("DELTA-1", 13)
 
+    # ------------------------------------------------------------- DELTA-1: balancing the books between playfields
+    BCT = "mpf/core/ball_controller.py"
+    f = repo.func(BCT, "BallController._balance_playfields")
+    chk.analysed(f)
+    cfg = f.cfg()
+    ds = _deltas(f.node, "balls")
+    got = sorted((d[1], d[2], d[3]) for d in ds)
+    want = sorted([("playfield_source.balls", -1, "1"), ("playfield_source.available_balls", -1, "1"), ("playfield_target.balls", 1, "1"),
+                   ("playfield_target.available_balls", 1, "1")])
+    chk.ob("DELTA-1", "a ball assumed to have jumped between playfields leaves both counts of the source and enters both counts of the target", got == want,
+           f.where(), detail=str(got), construct=f.ident, text="playfield jump transfer")
+    if got == want:
+        nodes = [n for n in cfg.nodes if n.kind == "stmt" and any(n.ast is d[0] for d in ds)]
+        inner = [h for h in cfg.nodes if h.kind == "loop" and any(y is ds[0][0] for y in ast.walk(h.ast))]
+        inner = inner[-1] if inner else None
+        from sa.helpers import inloop_guards
+        from sa.cfg import canon_fact
+        gs = [inloop_guards(cfg, n.id, inner.id) if inner else set() for n in nodes]
+        ok = inner is not None and all(g == gs[0] for g in gs) and gs[0] == {canon_fact("playfield_source.balls > 0", True)}
+        chk.ob("DELTA-1", "all four halves of the transfer happen together, exactly for a source playfield that has a ball", ok, f.where(ds[0][0]),
+               detail=str([sorted(g) for g in gs][:1]), construct=f.ident, text="playfield jump selection")
+        outer = [h for h in cfg.nodes if h.kind == "loop" and h is not inner and any(y is ds[0][0] for y in ast.walk(h.ast))]
+        if outer and inner is not None:
+            og = inloop_guards(cfg, inner.id, outer[0].id)
+            chk.ob("DELTA-1", "balls are moved only to a playfield whose count is negative", og == {canon_fact("playfield_target.balls < 0", True)}, f.where(inner.ast),
+                   detail=str(sorted(og)), construct=f.ident, text="playfield jump target selection")
+            # exactly one ball per deficient playfield per pass: after a transfer the search for a source ends
+            last = max(nodes, key=lambda n: n.lineno)
+            again = inner.id in cfg.reachable([last.id], avoid=[outer[0].id], include_start=False)
+            chk.ob("DELTA-1", "one deficit is settled with one ball: the search for a source ends after a transfer", not again, f.where(last.ast),
+                   detail="without leaving the loop every playfield that has a ball gives one: balls appear on the books that are nowhere", construct=f.ident,
+                   text="playfield jump takes from every source")
+
     # ------------------------------------------------------------- LOST-1: a lost ball is handed over exactly once, on every path
     bd = repo.cls(BD, "BallDevice")
     MT = "self.config['ball_missing_target']"
@@ -391,6 +424,8 @@ def battery():
         M("drained balls ejected per new ball", BD, "                for _ in range(unclaimed_balls):\n                    self._setup_or_queue_eject_to_target(trough)", "                for _ in range(new_balls):\n                    self._setup_or_queue_eject_to_target(trough)", "LOST-1"),
         M("idle loss handed over only in idle state", BD, "            self.warning_log(\"Ball disappeared while idle. This should not normally happen.\")\n        self.available_balls -= 1\n        self.config['ball_missing_target'].add_missing_balls(1)", "            self.warning_log(\"Ball disappeared while idle. This should not normally happen.\")\n            self.config['ball_missing_target'].add_missing_balls(1)\n        self.available_balls -= 1", "LOST-1"),
         M("twin: lost ball warning reworded", BD, "Path to canceled. Assuming the ball jumped to %s.", "Path cancelled. Assuming the ball jumped to %s.", None),
+        M("a playfield deficit takes a ball from every other playfield", "mpf/core/ball_controller.py", "                        self.machine.events.post(\"playfield_jump\", source=playfield_source, target=playfield_target)\n                        break", "                        self.machine.events.post(\"playfield_jump\", source=playfield_source, target=playfield_target)", "DELTA-1"),
+        M("playfield jump leaves the source's available balls", "mpf/core/ball_controller.py", "                        playfield_source.available_balls -= 1\n", "", "DELTA-1"),
     ]
 
 
